@@ -1,6 +1,6 @@
 #!/bin/sh
 # usage: tools/try_mutant.sh <patch.diff> <Cxx> [tier]  -- apply a seeded change to /repo, run the check, undo it straight afterwards
-PATCH=$1; P=$2; TIER=${3:-quick}
+PATCH=$(realpath $1); P=$2; TIER=${3:-quick}
 git -C /repo diff --quiet || { echo "/repo not clean"; exit 9; }
 git -C /repo apply $PATCH || exit 9
 cd /verif && bin/check $P --tier $TIER > /tmp/try_$P.log 2>&1; RC=$?
